@@ -2,6 +2,9 @@ import sys, os, argparse, importlib, traceback, json
 from . import common as cm
 
 def main():
+    import signal
+    try: signal.signal(signal.SIGPIPE, signal.SIG_DFL)
+    except Exception: pass
     ap = argparse.ArgumentParser()
     ap.add_argument('pid'); ap.add_argument('--tier', default=None); ap.add_argument('--replay', default=None)
     a = ap.parse_args()
